@@ -59,7 +59,7 @@ def rawform(n, seed):
     return ("!binary:" + b64(p), p)
 
 
-def mk(cid, cexts, pexts=None, klass="", iuid=None, suid=None, sigv=None, pubv=None):
+def mk(cid, cexts, pexts=None, klass="", iuid=None, suid=None, sigv=None, pubv=None, origin=""):
     c = cfg("CN=extensions", extensions=[e.yaml() for e in cexts] or None,
             issuerUniqueId=iuid[0] if iuid else None, subjectUniqueId=suid[0] if suid else None)
     if sigv or pubv:
@@ -69,12 +69,19 @@ def mk(cid, cexts, pexts=None, klass="", iuid=None, suid=None, sigv=None, pubv=N
     if pexts is not None:
         files.append(("p.yaml", {"version": 1, "name": "p", "extensions": [e.yaml(True) for e in pexts]}))
         c["profile"] = "p"
+    if origin in ("sub", "request", "sub-stored-key"):
+        # the entity is a subordinate: with a generated key, certified from a request (no private key at all), or with a user-supplied key
+        c["issuer"] = "ca"
+        files.append(("ca.yaml", cfg("CN=issuer of the entity under test", extensions=[{"basicConstraints": {"critical": True, "content": {"ca": True}}}])))
     files.append(("e.yaml", c))
     tag = {"prop": "C06", "ent": "e", "class": klass, "hasProfile": pexts is not None,
            "pexts": [e.tag() for e in (pexts or [])], "cexts": [e.tag() for e in cexts],
            "iuid": {"present": bool(iuid), "bytes": list(iuid[1]) if iuid else []}, "suid": {"present": bool(suid), "bytes": list(suid[1]) if suid else []},
            "sigv": {"present": bool(sigv), "bytes": list(sigv[1]) if sigv else []}, "pubv": {"present": bool(pubv), "bytes": list(pubv[1]) if pubv else []}}
-    return case(cid, files, tag=tag)
+    cs = case(cid, files, tag=tag)
+    if origin in ("request", "stored-key", "sub-stored-key"):
+        cs["files"].append({"path": "e.pem", "make": {"kind": "csr" if origin == "request" else "key", "key": "P-384" if (cid % 2 or origin == "stored-key") else "RSA-1024", "cn": "extensions", "variant": ""}})
+    return cs
 
 
 def cases(ctx):
@@ -108,6 +115,15 @@ def cases(ctx):
         add([], klass="manip/both", sigv=rawform(f, seed), pubv=rawform(g, seed + 700))
         add([Ext("custom", 1, rawform(3, seed), custom_oid=CUSTOM_OIDS[0])], klass="manip/both+uids", sigv=rawform(g, seed + 900), pubv=rawform(f, seed + 1100),
             iuid=rawform(2, seed + 1300), suid=rawform(f, seed + 1500))
+
+    # ... and wherever the entity's key comes from: generated for a subordinate, user-supplied, or only a request (no private key)
+    for origin in ("sub", "request", "stored-key", "sub-stored-key"):
+        for f in ["empty", 1, 65, 257] + ([] if ctx.quick else lengths[4:9]):
+            seed += 1
+            add([], klass="manip/publicKeyBits/" + origin, pubv=rawform(f, seed), origin=origin)
+            add([Ext("custom", 2, rawform(5, seed), custom_oid=CUSTOM_OIDS[0])], klass="manip/both+uids/" + origin, sigv=rawform(5, seed + 100), pubv=rawform(f, seed + 200),
+                iuid=rawform(1, seed + 300), suid=rawform(2, seed + 400), origin=origin)
+        add([Ext("custom", 0, rawform(300, seed), custom_oid=CUSTOM_OIDS[0]), Ext("custom", 1, rawform("null", seed), custom_oid=CUSTOM_OIDS[0])], klass="raw/custom/" + origin, origin=origin)
 
     def rnd_ext(allow_nocontent=False, profile=False):
         k = r.choice(kinds)
